@@ -9,25 +9,31 @@ Case  c18.bf      payload [alts, rankings, mults, ks]
    Judge = the model's  brute_force_ok  (second sentence of the property; theorem brute_force_ok_correct) evaluated for
    every (k, result) with the verified optimum min_partition:  optimum <= k -> a partition passing partition_check
    with exactly `optimum` axes;  optimum > k -> None.
-rankings : flat strict complete rankings (distinct), storage order; mults : multiplicities (>= 1)."""
+rankings : flat strict complete rankings (distinct), storage order; mults : multiplicities (>= 1).
+OPEN FINDING KF-C18-a (known_findings.json): from m = 6 on the brute force is not minimum (pairs only inside one L-set).
+The c18.bf cases with m >= 6 are therefore a fixed set (det_bf_cases) and the finding is matched by input sha-256."""
 import itertools
 import random
 
 from .common import case, guarded, ordinal_instance, strict, rand_perm
 
 ID = "C18"
-RULE = ("approx: exhaustive all non-empty sets of <= 2 distinct strict orders m <= 3; random / planted k-partitions "
-        "(votes single-peaked on each of k hidden blocks, randomly interleaved) / planted + noise, m <= 25, n <= 15, "
-        "arbitrary positive ids; checker at every size, reference optimum for m <= 8. "
-        "brute force: every k in 1..m+1; exhaustive all non-empty sets of <= 2 distinct strict orders for m <= 3 "
-        "(thorough: all sets of <= 3), sampled sets for m = 4, random/planted/cyclic m <= 7 (thorough 8) plus some at m = 8 "
-        "(thorough 9), n <= 4 (cyclic-shift profiles up to n = m), odd and even m, "
-        "m = 1 and m = 2 included. non-trivial = reference optimum >= 2 axes")
-EXHAUSTIVE = {"quick": "all sets of 1-2 distinct strict orders over m<=3 alternatives (both functions, every k in 1..m+1)",
-              "thorough": "all sets of 1-3 distinct strict orders over m<=3 alternatives; all pairs of orders for m=4 "
-                          "(both functions, every k in 1..m+1)"}
-TRUSTED = ["(R) not verified, compared with the verified reference min_partition on bounded inputs (m <= 8, thorough 9) and through the "
-           "verified checker partition_check at every size: k_alt_partition_approx, longest_single_peaked_axis "
+RULE = ("approx (seed-dependent): exhaustive small sets (below); random / planted k-partitions (votes single-peaked on each of "
+        "k hidden blocks, randomly interleaved) / planted + noise / reversal pairs / cyclic shifts, m <= 25, n <= 15, arbitrary "
+        "positive ids; axes through the verified checker at every size, reference optimum for m <= 8. "
+        "brute force, every k in 1..m+1: m <= 5 exhaustive (below) + seed-dependent random/planted/cyclic (n <= 4, cyclic "
+        "n <= m), m = 1 and m = 2 included, NO known finding applies there; m >= 6: a FIXED case set (constant seeds "
+        "18000006 / 18000007, independent of VERIF_SEED, thorough contains quick): m = 6-8 (thorough 6-9), odd and even m - the "
+        "open finding KF-C18-a is matched by the sha-256 of exactly the failing inputs of that set. "
+        "non-trivial = reference optimum >= 2 axes")
+EXHAUSTIVE = {"quick": "both functions: all sets of 1-2 distinct strict orders over m<=3; brute force: every set of <= 3 strict "
+                       "orders over m = 4 and m = 5 containing the identity ranking (= every profile of <= 3 orders up to "
+                       "relabelling), every k in 1..m+1",
+              "thorough": "both functions: all sets of 1-3 distinct strict orders over m<=3; brute force: every set of <= 4 strict "
+                          "orders over m = 4 and m = 5 containing the identity ranking (= every profile of <= 4 orders up to "
+                          "relabelling), every k in 1..m+1"}
+TRUSTED = ["(R) not verified, compared with the verified reference min_partition on bounded inputs (m <= 8, thorough 9) and "
+           "through the verified checker partition_check at every size: k_alt_partition_approx, longest_single_peaked_axis "
            "(Erdelyi-Lackner-Pfandler dynamic programme: get_L_sets, eligible_alternatives, last_check, place, case_2, "
            "case_3, check_case_4, boundary), k_alternative_partition_brut_force (dfs, extend, "
            "singleton_pair_combinations); termination only observed by the watchdog"]
@@ -35,9 +41,13 @@ ASSUMPTIONS = ["data_type = soc; every order ranks every alternative exactly onc
                "distinct; k >= 1 (quantifier of C18)",
                "k_alternative_partition_brut_force returns ONE partition (a list of axes) or None - the docstring's "
                "'list of optimal partitions' is not what the code does; the property text ('returns such a partition') "
-               "agrees with the code"]
+               "agrees with the code",
+               "the brute-force cases with m >= 6 do not depend on VERIF_SEED (fixed set, see RULE): open finding KF-C18-a "
+               "(k_alternative_partition_brut_force is not minimum from m = 6 on) is identified by input, so a "
+               "seed-dependent campaign there would meet new failing inputs on the unchanged tree; "
+               "regenerate the list with  python -m props.c18_known --write"]
 TIMEOUT_S = 30.0
-CHUNK = 4
+CHUNK = 8
 THEOREMS_FOR_OP = {"c18.approx": "partition_check_correct / check_valid_bound",
                    "c18.bf": "brute_force_ok_correct / min_partition_correct / partition_check_correct"}
 REF_MAX_M = 8      # the reference optimum is run up to this size
@@ -109,6 +119,63 @@ def rand_ids(rng, m):
     return rng.sample(range(1, rng.choice([m + 1, 30, 1000, 10 ** 9])), m)
 
 
+def mixed_votes(rng, i, m, alts):
+    """one structured profile; i selects the style"""
+    n = rng.randint(1, 4)
+    style = i % 6
+    if style == 0 or m == 1:
+        votes = [rand_perm(rng, alts) for _ in range(n)]
+    elif style == 1:
+        votes = planted(rng, alts, rng.randint(1, max(1, (m + 1) // 2)), n)
+    elif style == 2:      # planted + one noise vote
+        votes = planted(rng, alts, rng.randint(1, max(1, m // 2)), max(1, n - 1)) + [rand_perm(rng, alts)]
+    elif style == 3:      # reversal pairs: many alternatives compete for the last place
+        v = rand_perm(rng, alts)
+        votes = [v, v[::-1]] + [rand_perm(rng, alts) for _ in range(n - 2)]
+    elif style == 4:      # cyclic shifts: no three alternatives are single-peaked together when all shifts are present
+        v = rand_perm(rng, alts)
+        sh = rng.sample(range(m), m if i % 18 == 4 else min(m, rng.randint(2, 6)))
+        votes = [v[j:] + v[:j] for j in sh]
+    else:                 # many random votes: optimum close to ceil(m/2)
+        votes = [rand_perm(rng, alts) for _ in range(rng.randint(3, 4))]
+    rng.shuffle(votes)
+    votes = distinct(votes)
+    mults = [rng.choice([1, 1, 2, 7]) for _ in votes]
+    return votes, mults, style
+
+
+def bf_case(alts, rankings, mults=None, **tags):
+    rankings = [list(r) for r in rankings]
+    mults = list(mults) if mults else [1] * len(rankings)
+    ks = list(range(1, len(alts) + 2))
+    return case("c18.bf", [list(alts), rankings, mults, ks], m=len(alts), **tags)
+
+
+DET_SEED_QUICK = 18000006
+DET_SEED_THOROUGH = 18000007
+
+
+def det_bf_cases(tier):
+    """The brute-force cases with m >= 6: a FIXED set (constant seeds, independent of VERIF_SEED), identical in every
+    run; the thorough set contains the quick set.  Open finding KF-C18-a lives at m >= 6 and is matched in
+    known_findings.json by the sha-256 of exactly these inputs (regenerate with  python -m props.c18_known)."""
+    out = []
+    rq = random.Random(DET_SEED_QUICK)
+    for i in range(1700):
+        m = 8 if i % 16 == 7 else rq.choice([6, 6, 7])
+        alts = rand_ids(rq, m)
+        votes, mults, style = mixed_votes(rq, i, m, alts)
+        out.append(bf_case(rand_perm(rq, alts), votes, mults, style=style, det=1))
+    if tier != "quick":
+        rt = random.Random(DET_SEED_THOROUGH)
+        for i in range(13000):
+            m = 9 if i % 65 == 7 else rt.choice([6, 7, 7, 8])
+            alts = rand_ids(rt, m)
+            votes, mults, style = mixed_votes(rt, i, m, alts)
+            out.append(bf_case(rand_perm(rt, alts), votes, mults, style=style, det=2))
+    return out
+
+
 def generate(tier, seed):
     rng = random.Random(1000003 * seed + 18)
     thorough = tier != "quick"
@@ -121,12 +188,9 @@ def generate(tier, seed):
         out.append(case("c18.approx", [list(alts), rankings, mults, mode], m=len(alts), **tags))
 
     def add_bf(alts, rankings, mults=None, **tags):
-        rankings = [list(r) for r in rankings]
-        mults = list(mults) if mults else [1] * len(rankings)
-        ks = list(range(1, len(alts) + 2))
-        out.append(case("c18.bf", [list(alts), rankings, mults, ks], m=len(alts), **tags))
+        out.append(bf_case(alts, rankings, mults, **tags))
 
-    # ---- exhaustive small
+    # ---- exhaustive small (both functions)
     for m in (1, 2, 3):
         alts = list(range(1, m + 1))
         perms = list(itertools.permutations(alts))
@@ -136,50 +200,38 @@ def generate(tier, seed):
                 add_approx(alts, sub, exh=1)
                 if k == 2:
                     add_bf(alts, sub[::-1], exh=1, rev=1)
-    alts = [1, 2, 3, 4]
-    perms = list(itertools.permutations(alts))
-    pairs = list(itertools.combinations(perms, 2))
-    if not thorough:
-        pairs = rng.sample(pairs, 90)
-    for sub in [(p,) for p in perms[:(24 if thorough else 6)]] + pairs:
-        add_bf(alts, sub, exh=1)
-        add_approx(alts, sub, exh=1)
-    for _ in range(60 if not thorough else 600):
-        sub = rng.sample(perms, rng.choice([3, 3, 4]))
-        add_bf(alts, sub, sampled4=1)
-        add_approx(alts, sub, sampled4=1)
+    # m = 4, 5: every set of orders containing the identity ranking (= every profile up to relabelling)
+    for m, nmax in ((4, 3 if not thorough else 4), (5, 3 if not thorough else 4)):
+        alts = list(range(1, m + 1))
+        perms = list(itertools.permutations(alts))
+        for n in range(1, nmax + 1):
+            for rest in itertools.combinations(perms[1:], n - 1):
+                sub = (perms[0],) + rest
+                add_bf(alts, sub, exh=1)
+                if n <= 2 or (m == 4 and n == 3 and thorough):
+                    add_approx(alts, sub, exh=1)
 
-    # ---- brute force: random / planted, m <= 7 (8) plus a few at 8 (9), n <= 4 (cyclic style: n <= 6), arbitrary ids
-    nbf = 2600 if not thorough else 24000
-    mmax = 7 if not thorough else 8
-    for i in range(nbf):
-        m = rng.randint(1, mmax) if i % 5 else rng.choice([mmax - 2, mmax - 1, mmax])
-        if i % 20 == 7:
-            m = mmax + 1 if (not thorough or i % 80 == 7) else mmax
+    # ---- brute force, m <= 5: seed-dependent random / planted / cyclic, arbitrary ids, n <= 4 (cyclic: n <= m)
+    nsmall = 1500 if not thorough else 12000
+    for i in range(nsmall):
+        m = rng.randint(1, 5) if i % 3 else rng.choice([4, 5, 5])
         alts = rand_ids(rng, m)
-        n = rng.randint(1, 4)
-        style = i % 6
-        if style == 0 or m == 1:
-            votes = [rand_perm(rng, alts) for _ in range(n)]
-        elif style == 1:
-            votes = planted(rng, alts, rng.randint(1, max(1, (m + 1) // 2)), n)
-        elif style == 2:      # planted + one noise vote
-            votes = planted(rng, alts, rng.randint(1, max(1, m // 2)), max(1, n - 1)) + [rand_perm(rng, alts)]
-        elif style == 3:      # reversal pairs: many alternatives compete for the last place
-            v = rand_perm(rng, alts)
-            votes = [v, v[::-1]] + [rand_perm(rng, alts) for _ in range(n - 2)]
-        elif style == 4:      # cyclic shifts: no three alternatives are single-peaked together when all shifts are present
-            v = rand_perm(rng, alts)
-            sh = rng.sample(range(m), m if i % 18 == 4 else min(m, rng.randint(2, 6)))
-            votes = [v[j:] + v[:j] for j in sh]
-        else:                 # many random votes: optimum close to ceil(m/2)
-            votes = [rand_perm(rng, alts) for _ in range(rng.randint(3, 4))]
-        rng.shuffle(votes)
-        votes = distinct(votes)
-        mults = [rng.choice([1, 1, 2, 7]) for _ in votes]
+        votes, mults, style = mixed_votes(rng, i, m, alts)
         add_bf(rand_perm(rng, alts), votes, mults, style=style)
-        if i % 4 == 0:
-            add_approx(rand_perm(rng, alts), votes, mults, style=style)
+
+    # ---- brute force, m >= 6: the fixed set
+    out.extend(det_bf_cases(tier))
+
+    # ---- approx with the reference optimum (m <= REF_MAX_M), seed-dependent
+    nref = 900 if not thorough else 7000
+    mmax = 7 if not thorough else 8
+    for i in range(nref):
+        m = rng.randint(1, mmax) if i % 5 else rng.choice([mmax - 2, mmax - 1, mmax])
+        if i % 20 == 7 and not thorough:
+            m = 8
+        alts = rand_ids(rng, m)
+        votes, mults, style = mixed_votes(rng, i, m, alts)
+        add_approx(rand_perm(rng, alts), votes, mults, style=style)
 
     # ---- approx: all sizes (checker only above REF_MAX_M).  The dynamic programme is exponential on profiles that are
     # (nearly) single-peaked on many alternatives, so the hidden blocks of the large planted cases are kept <= 14 long
@@ -410,32 +462,3 @@ def shrink(c):
             if c["op"] == "c18.approx":
                 nl = 1 if len(na) <= REF_MAX_M else 0
             yield dict(c, payload=[na, nr, nm, nl])
-
-# ------------------------------------------------------------------------------------------------ known-finding predicates
-def bf_sound_but_not_minimum(c, r, mres, failure):
-    """The brute force answered SOUNDLY but INCOMPLETELY, outside the region of the repaired cap defect (07cd506):
-    every answer is None or a partition accepted by the verified checker with at most k axes; some answer is None
-    although optimum <= k, or has more axes than the optimum; and optimum < ceil(m/2) (when the optimum equals
-    ceil(m/2) a wrong None is the cap defect, which must stay a violation).  Evaluated from the model's answers."""
-    if c["op"] != "c18.bf" or failure.get("kind") != "mismatch":
-        return False
-    if not (isinstance(r, list) and r[0] == 0) or not mres or not isinstance(mres[0], list):
-        return False
-    mn, oks = mres[0]
-    m = len(c["payload"][0])
-    if mn >= (m + 1) // 2:
-        return False
-    seen = []
-    for k, opt in r[1]:
-        if opt and opt[0] not in seen:
-            seen.append(opt[0])
-    for (k, opt), okk in zip(r[1], oks):
-        if opt:
-            if mres[1 + seen.index(opt[0])] != 1 or len(opt[0]) > k:
-                return False
-        elif mn > k and okk != 1:
-            return False
-    return any(o != 1 for o in oks)
-
-
-PREDICATES = {"bf_sound_but_not_minimum": bf_sound_but_not_minimum}
